@@ -608,16 +608,36 @@ def rule_ring_pairing(ctx) -> None:
     takes a slot out of the deque, and every method that raises a count puts one in."""
     RING = "clematis.engine.util.ring:DedupeRing"
     n_m = 0
-    for mname, fn in sorted(ctx.prog.methods(RING).items()):
-        if mname in ("__init__", "contains", "__contains__", "__len__", "tolist", "extend"):
-            continue
-        lowers = [x for x in walk_no_defs(fn.node) if isinstance(x, ast.Call) and isinstance(x.func, ast.Attribute) and x.func.attr in ("pop", "clear") and src(x.func.value) == "self._ref"]
+    meths = ctx.prog.methods(RING)
+
+    def _local(fn):
+        lowers = bool([x for x in walk_no_defs(fn.node) if isinstance(x, ast.Call) and isinstance(x.func, ast.Attribute) and x.func.attr in ("pop", "clear") and src(x.func.value) == "self._ref"])
         # c = self._ref.get(x) ...; c -= 1 / c - 1 ...; self._ref[x] = c   (a store of a decremented count)
         dec = any(isinstance(x, ast.AugAssign) and isinstance(x.op, ast.Sub) for x in walk_no_defs(fn.node)) or any(isinstance(x, ast.BinOp) and isinstance(x.op, ast.Sub) and "_ref" in src(x) for x in walk_no_defs(fn.node))
         raises_ = any(isinstance(x, ast.Assign) and any(isinstance(t, ast.Subscript) and src(t.value) == "self._ref" for t in x.targets) and isinstance(x.value, ast.BinOp) and isinstance(x.value.op, ast.Add)
                       for x in walk_no_defs(fn.node))
         q_out = any(isinstance(x, ast.Call) and isinstance(x.func, ast.Attribute) and x.func.attr in ("popleft", "remove", "clear", "pop") and src(x.func.value) == "self._q" for x in walk_no_defs(fn.node))
         q_in = any(isinstance(x, ast.Call) and isinstance(x.func, ast.Attribute) and x.func.attr in ("append", "appendleft") and src(x.func.value) == "self._q" for x in walk_no_defs(fn.node))
+        calls = {x.func.attr for x in walk_no_defs(fn.node) if isinstance(x, ast.Call) and isinstance(x.func, ast.Attribute) and isinstance(x.func.value, ast.Name) and x.func.value.id == "self" and x.func.attr in meths}
+        return [lowers, dec, raises_, q_out, q_in], calls
+
+    loc = {m: _local(f) for m, f in meths.items()}
+    # a private helper (`_set_ref`) that other methods call is judged as part of its callers: flags are closed over self-calls
+    called_by_sibling = {c for m, (_, cs) in loc.items() for c in cs if c != m}
+
+    def _closed(m, seen=()):
+        fl = list(loc[m][0])
+        for c in loc[m][1]:
+            if c not in seen and c != m and c.startswith("_") and not c.startswith("__"):
+                fl = [a or b for a, b in zip(fl, _closed(c, seen + (m,)))]
+        return fl
+
+    for mname, fn in sorted(meths.items()):
+        if mname in ("__init__", "contains", "__contains__", "__len__", "tolist", "extend"):
+            continue
+        if mname.startswith("_") and not mname.startswith("__") and mname in called_by_sibling:
+            continue
+        lowers, dec, raises_, q_out, q_in = _closed(mname)
         if not (lowers or dec or raises_):
             continue
         n_m += 1
